@@ -70,6 +70,7 @@ def run(rep, tier):
                 rep.add(Finding('C18-no-shared-store', f'sourcer/translator.py:{name}', f'ctx={ctx}',
                                 f'{what}: the {label} of the driver is not a local object', f'sourcer/translator.py:{name}'))
         rep.oblige(True, 2)
+    routes.run(rep, 'C18', ['WIRE-parent-readonly'])
     # wiring of the context: `_ctx = _Context()` at module level in translator's emission
     tr = load.read('sourcer/translator.py')
     if "_ctx = _Context()" not in tr:
